@@ -163,7 +163,7 @@ class Top(YowLayer):
 
 class Rig(object):
     def __init__(self, choices=(), upper=(Top,), config=None, server=None, trace_lines=False, props=None, max_steps=300000,
-                 profile_name="verif", write_config=None, profile=None, preempt=None):
+                 profile_name="verif", write_config=None, profile=None, preempt=None, core_layers=None):
         install()
         S.ALL_LOCKS[:] = []
         self.sched = S.Scheduler(choices, TRACE_FILES, trace_lines=trace_lines, max_steps=max_steps, preempt=preempt)
@@ -190,7 +190,7 @@ class Rig(object):
                 self.config_writes.append(bytes(c.server_static_public.data) if c.server_static_public else None)
             self.profile.write_config = _wc
         self.StackCls = type("RigStack", (YowStack,), {"_YowStack__detachedQueue": queue.Queue()})
-        layers = YowStackBuilder.getCoreLayers() + tuple(upper)
+        layers = tuple(core_layers if core_layers is not None else YowStackBuilder.getCoreLayers()) + tuple(upper)
         self.stack = self.StackCls(layers, reversed=False, props=dict(props or {}))
         self.stack.setProfile(self.profile)
         self.top = self.stack.getLayer(-1)
